@@ -99,6 +99,8 @@ struct Injected {
     bool delivered = false;
     int deliveredStep = -1;
     bool linkUpAfter = false;
+    QString smIdAtDelivery;   // stream-management session on which it was delivered (SM runs)
+    QMap<QString, int> perSession;
     int replies = 0;
     int step;
     QString senderClass;
@@ -123,7 +125,11 @@ public:
         auto &k = p.knobs;
         k[QStringLiteral("scramIter")] = 1;
         p.sknobs[QStringLiteral("sasl1")] = QStringLiteral("SCRAM-SHA-1");
-        k[QStringLiteral("sm")] = 0;   // retransmission of replies on a new stream-management session is C09's subject, not a second reply
+        // Without stream management (75 %) a reply is judged where the client writes it. With resumable stream management
+        // (25 %) what counts is what the sender gets: replies are counted where the server receives them, over the whole
+        // chain of resumed connections (a retransmission that replaces a lost copy is not a second reply; a copy of an
+        // already received reply is)
+        k[QStringLiteral("sm")] = (qint64)(mix64(seed, 0x5e08) % 100 < 25 ? 2 : 0);
         k[QStringLiteral("ext")] = r.weighted({ 15, 35, 50 });   // 0 none, 1 defaults, 2 every bundled manager
         k[QStringLiteral("autoReconnect")] = 0;
         p.ops.append(mkop(QStringLiteral("connect")));
@@ -170,6 +176,7 @@ public:
             QString ownBareNow;
             QSet<QString> handlersHit, typesHit;
 
+            const bool smRun = plan.knob(QStringLiteral("sm")) > 0;
             w.onNewLink = [&](SimLink *l) {
                 l->onWrite = [&](int from, const QByteArray &d) {
                     if (from != 0 || !d.startsWith("<iq")) {
@@ -181,11 +188,15 @@ public:
                     const QString id = el.attribute(QStringLiteral("id"));
                     const QString to = el.attribute(QStringLiteral("to"));
                     if (type == QLatin1String("get") || type == QLatin1String("set")) {
-                        if (id.startsWith(QLatin1String("own-"))) {   // requests the server holds: they really are in flight
+                        if (id.startsWith(QLatin1String("own-")) && !pendingOwnTo.contains(id)) {   // requests the server holds: they really are in flight
+                            // (a retransmission of the same request after a resumption is not a new one)
                             pendingOwn.append(id);
                             pendingOwnTo[id] = to;
                         }
                         return;
+                    }
+                    if (smRun) {
+                        return;   // counted at the receiving end (below)
                     }
                     // a reply: attribute it to the injected IQ it answers
                     for (auto &in : injected) {
@@ -206,6 +217,9 @@ public:
                         if (!in.delivered && bytes.contains(("id='" + in.id + "'").toUtf8())) {
                             in.delivered = true;
                             in.deliveredStep = w.stepNo;
+                            if (auto *c = w.server->current()) {
+                                in.smIdAtDelivery = c->sm ? c->sm->id : QString();
+                            }
                         }
                     }
                 };
@@ -354,10 +368,43 @@ public:
                     in.linkUpAfter = w.client->isConnected();
                 }
             }
+            QString finalSmId;
+            if (auto *c = w.server->current()) {
+                finalSmId = c->sm ? c->sm->id : QString();
+            }
+            if (smRun) {
+                // count the replies where the server received them (all connections of the run)
+                for (const auto &ri : std::as_const(w.server->received)) {
+                    if (ri.tag != QLatin1String("iq") || (ri.type != QLatin1String("result") && ri.type != QLatin1String("error"))) {
+                        continue;
+                    }
+                    for (auto &in : injected) {
+                        const bool toAccount = ri.to.isEmpty() && !in.fromAbsent && in.from.section(QLatin1Char('/'), 0, 0) == ownBareNow;
+                        if (in.delivered && in.id == ri.id && ((in.fromAbsent ? ri.to.isEmpty() : ri.to == in.from) || toAccount)) {
+                            // a copy on ANOTHER stream-management session is what XEP-0198 prescribes when a session could not be
+                            // resumed (delivery unknown, stanza transmitted again): only copies within one session count as extra
+                            const int n = ++in.perSession[ri.smId];
+                            in.replies = std::max(in.replies, n);
+                            in.replyTypes << ri.type;
+                            break;
+                        }
+                    }
+                }
+            }
             int judged = 0;
             for (auto &in : injected) {
                 if (!in.delivered) {
                     continue;
+                }
+                if (smRun && in.replies <= 1) {
+                    // the reply is owed only if the stream-management session it was received on is still the current one
+                    // and the client is connected: then everything unacknowledged has been transmitted (again) and pumped
+                    const bool chainIntact = w.client->isConnected() && !in.smIdAtDelivery.isEmpty() && in.smIdAtDelivery == finalSmId;
+                    if (!chainIntact && in.replies == 0) {
+                        w.probe("obligation_lapsed_session_chain_broken");
+                        continue;
+                    }
+                    in.linkUpAfter = true;
                 }
                 const bool request = in.type == QLatin1String("get") || in.type == QLatin1String("set");
                 const bool response = in.type == QLatin1String("result") || in.type == QLatin1String("error");
